@@ -19,7 +19,12 @@ RULE = ('inputs of the conversion helpers: (value, bitwidth|None, signed) exhaus
         'without underscores, bitwidth parameter) exhaustively for width <= 6 plus boundary values to width 130 '
         'and a list of malformed strings; Const on the same triples; val_to_signed_integer / twos_comp_repr / '
         'rev_twos_comp_repr on all (value, width) with width <= 10 plus boundaries; all five format types '
-        '(s,u,x,b,e + unknown) x widths 1..8 exhaustively over [0,2^w) plus boundaries, and back; bit patterns over '
+        '(s,u,x,b,e + unknown) x widths 1..8 exhaustively over [0,2^w) plus boundaries, and back; the enum format over '
+        'enum_sets of five Enum/IntEnum classes whose names are prefixes/suffixes of each other, one nested, with shared '
+        'member names carrying different values, in every relative order (rotations+reversals, sub-sets; thorough: all '
+        'permutations) x every requested name (also absent / dotted / partial names) x every member name and value: '
+        'the enum denoted is the first with exactly that name (dotted requests: only the two round trips are required); '
+        'bit patterns over '
         '{0,1,a,b,?} exhaustively up to length 5 (quick) / 6 (thorough) and sampled up to length 10 (also with '
         '_ and blanks for match_bitpattern) x field tuples (exact, too wide, negative, wrong arity), each '
         'accepted value fed to a simulated match_bitpattern circuit.  A case = one helper call; distinct by '
@@ -606,6 +611,141 @@ def check_formats(ctx, F):
             F.model_fail('pystr:model', (0, abs(v), 0), 'str/bin/hex of %d: %r vs model %r' % (v, got, (unstr(a), unstr(b), unstr(c))), {})
 
 
+# ---- the enum format over enum_sets with several, similarly named enums ----------------------
+class AluCtl(enum.Enum):          # name ends with "Ctl"; shares member names with Ctl, other values
+    ADD = 1
+    XOR = 5
+    SUB = 3
+    NOP = 12
+
+
+class CtlX(enum.IntEnum):         # name starts with "Ctl"
+    ADD = 2
+    MUL = 5
+    NOP = 7
+
+
+class tl(enum.Enum):              # name is a proper suffix of "Ctl" / "AluCtl"
+    ADD = 9
+    HLT = 0
+
+
+class Decoder(object):
+    class Op(enum.IntEnum):       # nested: __name__ 'Op', __qualname__ 'Decoder.Op'
+        LD = 3
+        ST = 4
+        ADD = 12
+
+
+ENUMS = [Ctl, AluCtl, CtlX, tl, Decoder.Op]
+
+
+def enum_coq(e):
+    return '(%s, [%s])' % (sl(e.__name__), '; '.join('(%s, %d)' % (sl(m.name), int(m.value)) for m in e))
+
+
+def enum_orders(ctx):
+    """orderings of enum_set: every enum before and after every other one (rotations and their reversals),
+    sub-sets, single enums; thorough: all permutations"""
+    n = len(ENUMS)
+    if ctx.tier != 'quick':
+        orders = [list(p) for p in itertools.permutations(range(n))]
+    else:
+        rot = [[(i + k) % n for i in range(n)] for k in range(n)]
+        orders = rot + [list(reversed(r)) for r in rot]
+    rng = ctx.sub_rng('enum-orders')
+    for k in (1, 2, 3):
+        for _ in range(4):
+            orders.append(rng.sample(range(n), k))
+    seen, out = set(), []
+    for o in orders:
+        if tuple(o) not in seen:
+            seen.add(tuple(o))
+            out.append(o)
+    return out
+
+
+def spec_enum(es, req):
+    """the enum a format 'e<w>/<req>' denotes in enum_set es: the first one whose name is exactly req"""
+    for e in es:
+        if e.__name__ == req:
+            return e
+    return None
+
+
+def check_enum_sets(ctx, F):
+    orders = enum_orders(ctx)
+    reqs = [e.__name__ for e in ENUMS] + ['Nope', 'Decoder.Op', 'Ct', 'l']
+    fs = ['e8/%s' % r for r in reqs]
+    vals = sorted({int(m.value) for e in ENUMS for m in e} | {6, 100})
+    ds = sorted({m.name for e in ENUMS for m in e} | {'zz', 'Add'})
+    lets = ' '.join('let e%d := %s in' % (i, enum_coq(e)) for i, e in enumerate(ENUMS))
+    sets = '[' + '; '.join('[' + '; '.join('e%d' % i for i in o) + ']' for o in orders) + ']'
+    expr = '%s map (fun es => (h_to_str %s %s es, h_to_val %s %s es)) %s' % (
+        lets, zl(vals), sll(fs), sll(ds), sll(fs), sets)
+    (res,) = ctx.coq_eval([expr], IMPORTS, tag='c16enum')
+    for o, (m_str, m_val) in zip(orders, res):
+        es = [ENUMS[i] for i in o]
+        esn = [e.__qualname__ for e in es]
+        ctx.count('enum_set:size', len(es))
+        for fi, (req, f) in enumerate(zip(reqs, fs)):
+            E = spec_enum(es, req)
+            for vi, v in enumerate(vals):
+                impl, cls = call(val_to_formatted_str, v, f, list(es))
+                ctx.case(('enum-to_str', tuple(o), f, v),
+                         sample={'helper': 'val_to_formatted_str', 'args': [v, f, esn], 'result': impl}
+                         if (v, req, tuple(o[:2])) == (5, 'Ctl', (1, 0)) else None)
+                rep = {'call': 'val_to_formatted_str(%d, %r, enum_set=%s)' % (v, f, esn), 'got': impl,
+                       'enums': {e.__qualname__: {m.name: int(m.value) for m in e} for e in es}}
+                size = (len(es), o.index(ENUMS.index(E)) if E else 0, v)
+                want = None
+                if E is not None:
+                    for m in E:
+                        if int(m.value) == v:
+                            want = m.name
+                            break
+                if impl != unstr(m_str[vi][fi]):
+                    F.model_fail('enum-to_str:model', size, 'val_to_formatted_str(%d, %r, %s) = %r, model %r'
+                                 % (v, f, esn, impl, unstr(m_str[vi][fi])), rep)
+                if impl != want and '.' not in req:   # qualified names: only the round trips below are required
+                    F.spec_fail('formatted:enum-lookup:to_str', size, 'val_to_formatted_str(%d, %r, enum_set=%s) = %r, '
+                                'the enum named %r gives %r' % (v, f, esn, impl, req, want), dict(rep, expected=want))
+                if impl is not None:
+                    back = call(formatted_str_to_val, impl, f, list(es))[0]
+                    ctx.case(('enum-roundtrip', tuple(o), f, v))
+                    if back != v:
+                        F.spec_fail('formatted:roundtrip:e', size,
+                                    'formatted_str_to_val(val_to_formatted_str(%d, %r, %s) = %r, %r, %s) = %r'
+                                    % (v, f, esn, impl, f, esn, back),
+                                    {'call': 'formatted_str_to_val(%r, %r, enum_set=%s)' % (impl, f, esn),
+                                     'expected': v, 'got': back, 'enums': rep['enums']})
+            for di, d in enumerate(ds):
+                impl, cls = call(formatted_str_to_val, d, f, list(es))
+                impl = None if impl is None else int(impl)
+                ctx.case(('enum-to_val', tuple(o), f, d))
+                ctx.count('enum-to_val:outcome', cls)
+                rep = {'call': 'formatted_str_to_val(%r, %r, enum_set=%s)' % (d, f, esn), 'got': impl,
+                       'enums': {e.__qualname__: {m.name: int(m.value) for m in e} for e in es}}
+                size = (len(es), o.index(ENUMS.index(E)) if E else 0, len(d))
+                want = int(E[d].value) if (E is not None and d in E.__members__) else None
+                if impl != m_val[di][fi]:
+                    F.model_fail('enum-to_val:model', size, 'formatted_str_to_val(%r, %r, %s) = %r, model %r'
+                                 % (d, f, esn, impl, m_val[di][fi]), rep)
+                if impl != want and '.' not in req:
+                    F.spec_fail('formatted:enum-lookup:to_val', size, 'formatted_str_to_val(%r, %r, enum_set=%s) = %r, '
+                                'the enum named %r gives %r' % (d, f, esn, impl, req, want), dict(rep, expected=want))
+                if impl is not None:
+                    # whatever enum the format resolved to, the other direction must resolve to the same one:
+                    # the value prints as a name that reads back as the same value (d itself unless d is an alias)
+                    again = call(val_to_formatted_str, impl, f, list(es))[0]
+                    back = None if again is None else call(formatted_str_to_val, again, f, list(es))[0]
+                    canon = next(m.name for m in E if int(m.value) == want) if want is not None else again
+                    if again is None or back != impl or again != canon:
+                        F.spec_fail('formatted:roundtrip-text:e', size,
+                                    'val_to_formatted_str(formatted_str_to_val(%r, %r, %s) = %r) = %r, which reads back as %r'
+                                    % (d, f, esn, impl, again, back), dict(rep, expected=canon))
+
+
 def pattern_fields(p):
     seen = []
     for c in p:
@@ -790,7 +930,8 @@ def check_bitpatterns(ctx, F):
 def run(ctx):
     import time
     F = Fails(ctx)
-    for part in (check_int, check_bool, check_verilog, check_signed_and_twos, check_formats, check_bitpatterns):
+    for part in (check_int, check_bool, check_verilog, check_signed_and_twos, check_formats, check_enum_sets,
+                 check_bitpatterns):
         t0 = time.time()
         part(ctx, F)
         ctx.count('wall_s_by_part', part.__name__, round(time.time() - t0, 1))
